@@ -36,6 +36,16 @@ def run_case(f, c):
     rel, red, rln, alpha, beta = build(c)
     out = {'id': c.get('id')}
     try:
+        if c.get('prev'):
+            # earlier call on the same dict OBJECTS holding other values, then in-place update to this case's values
+            prel, pred, prln, palpha, pbeta = build(c['prev'])
+            f(prel, pred, prln, c['strategy'], palpha, pbeta)
+            for old, new in ((prel, rel), (pred, red), (prln, rln)):
+                for k, v in new.items():
+                    old[k] = v
+                for k in [k for k in old if k not in new]:
+                    del old[k]
+            rel, red, rln = prel, pred, prln
         df = f(rel, red, rln, c['strategy'], alpha, beta)
         feats = list(df['Feature'])
         out['features'] = [x if isinstance(x, str) else None for x in feats]
